@@ -1,6 +1,7 @@
 //! verif-real: drives the real injectorpp (public API) with interposed system calls.
 #![allow(dead_code)]
 mod arena;
+mod count;
 mod hist;
 mod interpose;
 mod targets;
@@ -10,6 +11,7 @@ fn main() {
     let args: Vec<String> = std::env::args().collect();
     match args.get(1).map(|s| s.as_str()) {
         Some("hist") => hist::main(&args[2..]),
+        Some("count") => count::main(&args[2..]),
         _ => { eprintln!("usage: real <hist> ..."); std::process::exit(2) }
     }
 }
